@@ -85,12 +85,34 @@ func H17_backoff() {
 			attempt = 1 << 63 // large enough for the power to overflow for every multiplier > 1
 			cfg.Multiplier = math.Max(cfg.Multiplier, 1+1e-9)
 		}
-		for i := 0; i < 2000; i++ {
-			check(cfg.Backoff(attempt))
+		finished := make(chan struct{})
+		go func() {
+			defer close(finished)
+			for i := 0; i < 2000; i++ {
+				check(cfg.Backoff(attempt))
+			}
+		}()
+		select {
+		case <-finished:
+		case <-time.After(10 * time.Second):
+			// a call never returned: it waits for a lock an earlier call kept
+			vAssert(false, "C17.backoff-returns-holding-no-lock")
 		}
 		return
 	}
+	vSyncReset()
 	d := cfg.Backoff(attempt)
+	held := 0
+	log := vSyncLog()
+	for i := 0; i < len(log); i++ {
+		if i+5 <= len(log) && log[i:i+5] == "Lock#" && (i == 0 || log[i-1] == ';') {
+			held++
+		}
+		if i+7 <= len(log) && log[i:i+7] == "Unlock#" {
+			held--
+		}
+	}
+	vAssert(held == 0, "C17.backoff-returns-holding-no-lock")
 	check(d)
 	if attempt != 0 {
 		if m17PowInf {
